@@ -138,7 +138,7 @@ fn verify_match_rule(
                 };
 
                 if let Some(dst_artifact) = dst_artifacts.get(&dst_path) {
-                    if src_artifacts[src_path] == *dst_artifact {
+                    if src_artifacts.get(src_path) == Some(dst_artifact) {
                         consumed.insert(src_path.clone());
                     }
                 }
@@ -186,11 +186,31 @@ pub(crate) fn apply_rules_on_link(
         product_paths.difference(&material_paths).cloned().collect();
     let deleted: BTreeSet<_> =
         material_paths.difference(&product_paths).cloned().collect();
+    // digests looked up by canonicalized path (the maps of the link are
+    // keyed by the paths as recorded, which need not be canonical)
+    let canonicalized = |artifacts: &BTreeMap<
+        VirtualTargetPath,
+        TargetDescription,
+    >|
+     -> BTreeMap<VirtualTargetPath, TargetDescription> {
+        artifacts
+            .iter()
+            .map(|(path, value)| {
+                (
+                    canonicalize_path(path).unwrap_or_else(|| path.clone()),
+                    value.clone(),
+                )
+            })
+            .collect()
+    };
+    let canonical_materials = canonicalized(&src_link.materials);
+    let canonical_products = canonicalized(&src_link.products);
     let modified: BTreeSet<_> = material_paths
         .intersection(&product_paths)
         .cloned()
         .filter_map(|name| {
-            if src_link.materials[&name] != src_link.products[&name] {
+            if canonical_materials.get(&name) != canonical_products.get(&name)
+            {
                 Some(name)
             } else {
                 None
